@@ -77,9 +77,15 @@ func TestC06(t *testing.T) {
 			Prefill: true, Spin: true, Steps: 150 + rnd.Intn(150), Rounds: 1000, QLen: 1024}
 		cases = append(cases, mon.CaseSpec{Name: "conc-race", Spec: sp})
 	}
+	for i := 0; i < r.Pick(120, 4000); i++ {
+		sp := spec{Mode: "stalled", NSub: rnd.Intn(3), RawPub: rnd.Intn(3) == 0, WQ: []int{1, 2, 4, 8}[rnd.Intn(4)], Steps: rnd.Intn(8)}
+		cases = append(cases, mon.CaseSpec{Name: "pub-stalled-peer", Spec: sp})
+	}
 	r.Run(cases, func(c *mon.Case) {
 		sp := c.Spec.(spec)
 		switch sp.Mode {
+		case "stalled":
+			runStalledPeer(c, sp)
 		case "seq":
 			runSeq(c, sp)
 		case "conc":
